@@ -160,20 +160,28 @@ def run_spec(spec, props=("C18",)):
         n = spec["n"]; s = spec["seed"]
         G = sample_graph(n, spec.get("gseed", 1))
         nodes = list(G.nodes())
-        for name, mk in list(simulators(EoN, G, nodes).items()) + list(discrete_sims(EoN, G, nodes).items()):
+        allsims = [(name, mk) for name, mk in list(simulators(EoN, G, nodes).items()) + list(discrete_sims(EoN, G, nodes).items())]
+        # the full-data objects (node histories AND transmission records) are reproducible too
+        allsims += [(name + "/full", mk) for name, mk in list(simulators(EoN, G, nodes, full=True).items()) + list(discrete_sims(EoN, G, nodes, full=True).items())
+                    if not name.startswith(("estimate_", "get_infected", "percolate_", "directed_percolate"))]
+        for name, mk in allsims:
             try:
                 a, sa = seeded(mk, s); b, sb = seeded(mk, s)
+                # ... also after a differently seeded call in between (nothing carries over from one call to the next)
+                seeded(mk, s + 17); c, sc = seeded(mk, s)
             except RuntimeError as e:
                 if "entropy source" not in str(e):
                     raise
                 A.add(V("C18", name, "seeded", "entropy", "%s: %s (randomness must come from random / numpy.random only)" % (name, e)))
                 continue
-            A.execs += 2; A.evals += 1
+            A.execs += 4; A.evals += 1
             A.states.add((name, s)); A.trans.add((name, s, hsh(a))); A.outcomes.add(hsh(a)); A.nontrivial.add((name, s))
             if a != b:
                 A.add(V("C18", name, "seeded", "not_reproducible", "two calls of %s with random.seed(%d); numpy.random.seed(%d) differ" % (name, s, s), (), None, None))
             elif sa != sb:
                 A.add(V("C18", name, "seeded", "rng_state", "%s leaves the generators in different states after identical seeded calls" % name))
+            elif a != c or sa != sc:
+                A.add(V("C18", name, "seeded", "not_reproducible", "%s with random.seed(%d); numpy.random.seed(%d) gives a different result after a call with other seeds in between" % (name, s, s)))
         # return mode independence (continuous time: the flag does not influence the draws)
         for name in simulators(EoN, G, nodes):
             stats = ("S", "I") if "SIS" in name else ("S", "I", "R")
